@@ -97,7 +97,7 @@ class PCACD(StreamingDetector):
         self.num_pcs = None
 
         self.online_scaling = online_scaling
-        if self.online_scaling is True:
+        if self.online_scaling:
             self._reference_scaler = StandardScaler()
 
         self._build_reference_and_test = True
@@ -124,7 +124,7 @@ class PCACD(StreamingDetector):
         if self._build_reference_and_test:
             if self.drift_state is not None:
                 self._reference_window = self._test_window.copy()
-                if self.online_scaling is True:
+                if self.online_scaling:
                     # we'll need to refit the scaler. this occurs when both
                     # reference and test windows are full, so, inverse_transform
                     # first, here
@@ -147,7 +147,7 @@ class PCACD(StreamingDetector):
                 self._build_reference_and_test = False
 
                 # Fit Reference window onto PCs
-                if self.online_scaling is True:
+                if self.online_scaling:
                     self._reference_window = pd.DataFrame(
                         self._reference_scaler.fit_transform(self._reference_window)
                     )
@@ -201,7 +201,7 @@ class PCACD(StreamingDetector):
         else:
 
             # Add new obs to test window
-            if self.online_scaling is True:
+            if self.online_scaling:
                 next_obs = pd.DataFrame(self._reference_scaler.transform(X))
             else:
                 next_obs = pd.DataFrame(X)
